@@ -1,5 +1,5 @@
 SPECIFICATION Spec
 CONSTANTS
   MaxFns = 1
-INVARIANTS StepwiseIsExpand ImplsImplementEmittedTraits MethodsCorrespond AwaitIffAsync MocksGatedUnlessExported TargetTraitsCarryNoMocks AsyncTraitReapplied SendOnlyByDefault ByValueNeedsSend VisibilityAsRequested ModuleMethodsAreVisibleFns
+INVARIANTS StepwiseIsExpand ImplsImplementEmittedTraits MethodsCorrespond AwaitIffAsync MocksGatedUnlessExported TargetTraitsCarryNoMocks AsyncTraitReapplied SendOnlyByDefault ByValueNeedsSend OwnedReceiverFutureIsSendable VisibilityAsRequested ModuleMethodsAreVisibleFns
 CHECK_DEADLOCK FALSE
